@@ -123,7 +123,7 @@ func crossLaplacianConcurrent(nWorkers, evals int, f func(x, y []float64) float6
 
 	var originWG sync.WaitGroup
 	hasOrigin := usesOrigin(stencil)
-	if hasOrigin {
+	if hasOrigin && !originKnown {
 		originWG.Add(1)
 		// Launch worker to compute the origin.
 		go func() {
